@@ -237,3 +237,11 @@ Theorem C07_front_end_is_total_computable : forall intern bytes main,
   front_end intern bytes main <> FInternal.
 Proof. exact front_end_total_computable. Qed.
 Print Assumptions C07_front_end_is_total_computable.
+
+(* the parser model never answers "outside the model" (Front/ParseNoOutside.v): the whole grammar of
+   src/parse.rs is modelled; [front_end]'s folding of POutside into FParseError is vacuous *)
+From GV Require Import Front.ParseNoOutside.
+
+Theorem C07_parser_model_covers_the_whole_grammar : forall fuel ts o, parse_program_text fuel ts <> POutside o.
+Proof. exact parse_program_text_no_outside. Qed.
+Print Assumptions C07_parser_model_covers_the_whole_grammar.
